@@ -314,6 +314,33 @@ func triple(a, b, c int, rng *rand.Rand) vt.M {
 		}
 	}
 
+	// Reverse twice for EVERY in-range pointer pair (also those whose info pointer is not the segment of the
+	// hop pointer): the meta header and the bytes must be back
+	r2all := make([][]int, ni)
+	restoredAll := 0
+	for ci := 0; ci < ni; ci++ {
+		r2all[ci] = make([]int, nh)
+		for hh := 0; hh < nh; hh++ {
+			r2all[ci][hh] = -1
+			g.run("Raw.Reverse twice", func() {
+				r, _ := fresh(ci, hh)
+				p1, err := r.Reverse()
+				if err != nil {
+					return
+				}
+				p2, err := p1.(*scion.Raw).Reverse()
+				if err != nil {
+					return
+				}
+				rv := p2.(*scion.Raw)
+				r2all[ci][hh] = encMeta(rv.PathMeta)
+				if bytes.Equal(rv.Raw, canon(ci, hh)) {
+					restoredAll++
+				}
+			})
+		}
+	}
+
 	// field accessors at every index: Raw.GetHopField / GetInfoField against the decoded representation,
 	// Raw.SetHopField / SetInfoField must change exactly that field (seen through a full decode)
 	gh, gi, sh, si := make([]int, nh), make([]int, ni), make([]int, nh), make([]int, ni)
@@ -452,7 +479,7 @@ func triple(a, b, c int, rng *rand.Rand) vt.M {
 	return vt.M{"ev": "tri", "s": seg[:], "ni": ni, "nh": nh, "cells": cells, "rr": rr, "rd": rd, "r2": r2,
 		"agree": agree, "restored": restored, "tdr": tdr, "hops1": hops1, "infs1": infs1,
 		"cons0": cons0, "cons1": cons1, "gh": gh, "ghd": ghd, "gi": gi, "gid": gid, "sh": sh, "si": si,
-		"ooberr": oobErr, "oobchanged": oobChanged, "panics": g.panics, "pop": g.first}
+		"r2all": r2all, "restoredall": restoredAll, "ooberr": oobErr, "oobchanged": oobChanged, "panics": g.panics, "pop": g.first}
 }
 
 func emptyPath(rng *rand.Rand) vt.M {
